@@ -30,6 +30,9 @@ type rngTee struct {
 	// failFrom >= 0: the k-th and later draws by /repo callers fail with an error (fault injection at the source)
 	failFrom int
 	Failed   int
+	// maxChunk > 0: a read by a /repo caller returns at most that many bytes (n < len(p), no error), as an
+	// io.Reader may; whoever needs more has to ask again
+	maxChunk int
 }
 
 var (
@@ -57,6 +60,14 @@ func (t *rngTee) Reset() {
 	t.Draws = nil
 	t.failFrom = -1
 	t.Failed = 0
+	t.maxChunk = 0
+	t.mu.Unlock()
+}
+
+// ShortReads makes every read by a /repo caller return at most n bytes.
+func (t *rngTee) ShortReads(n int) {
+	t.mu.Lock()
+	t.maxChunk = n
 	t.mu.Unlock()
 }
 
@@ -100,6 +111,9 @@ func (t *rngTee) Read(p []byte) (int, error) {
 		t.Failed++
 		t.mu.Unlock()
 		return 0, errOSRandom
+	}
+	if caller != "" && t.maxChunk > 0 && len(p) > t.maxChunk {
+		p = p[:t.maxChunk]
 	}
 	q := t.script[len(p)]
 	scripted := false
